@@ -26,9 +26,19 @@ def wfBridge : PExpr → Bool
   | .inUnnest _ e _ _ a => wfBridge e && wfBridge a
   | .sel e id => wfBridge e && !id.name.isEmpty
   | .index _ e _ i => wfBridge e && wfBridge i
+  | .caseE _ _ o _ c t ws el => wfBridgeO o && wfBridge c && wfBridge t && wfBridgeW ws && wfBridgeO el
+  | .ifE _ _ c t e => wfBridge c && wfBridge t && wfBridge e
+  | .array _ _ es => wfBridges es
+  | .cast _ _ e path => wfBridge e && (!path.isEmpty && path.all (fun i => !i.name.isEmpty))
 def wfBridges : PExprs → Bool
   | .nil => true
   | .cons e es => wfBridge e && wfBridges es
+def wfBridgeW : PWhens → Bool
+  | .nil => true
+  | .cons _ c t ws => wfBridge c && wfBridge t && wfBridgeW ws
+def wfBridgeO : POExpr → Bool
+  | .none => true
+  | .some _ e => wfBridge e
 end
 
 /-- the precondition of the bridge theorems (decidable) -/
@@ -40,6 +50,19 @@ instance (e : PExpr) : Decidable (WFBridge e) := inferInstanceAs (Decidable (_ =
 theorem toKidsP_eq : (k : Nat) → (es : PExprs) → toKidsP k es = sliceKids "Exprs" k (es.toList.map toNodeP)
   | _, .nil => rfl
   | k, .cons e es => by simp [toKidsP, PExprs.toList, sliceKids, toKidsP_eq (k + 1) es]
+
+theorem toKidsV_eq : (k : Nat) → (es : PExprs) → toKidsV k es = sliceKids "Values" k (es.toList.map toNodeP)
+  | _, .nil => rfl
+  | k, .cons e es => by simp [toKidsV, PExprs.toList, sliceKids, toKidsV_eq (k + 1) es]
+
+/-- the `CaseWhen` nodes of the further WHEN clauses -/
+def whenNodes : PWhens → List Node
+  | .nil => []
+  | .cons wp c t ws => nCaseWhen wp (toNodeP c) (toNodeP t) :: whenNodes ws
+
+theorem toKidsW_eq : (k : Nat) → (ws : PWhens) → toKidsW k ws = sliceKids "Whens" k (whenNodes ws)
+  | _, .nil => rfl
+  | k, .cons wp c t ws => by simp [toKidsW, whenNodes, sliceKids, toKidsW_eq (k + 1) ws]
 
 /-- `exprPrec` (hand-written) is the `exprPrec` switch of the regenerated table -/
 theorem prec_bridge (e : PExpr) :
@@ -64,6 +87,10 @@ theorem prec_bridge (e : PExpr) :
   | inUnnest n e un rp a => exact prec_InExpr _
   | sel e id => exact prec_SelectorExpr _
   | index rb e kw i => cases kw <;> exact prec_IndexExpr _
+  | caseE cp ep o wp c t ws el => exact prec_CaseExpr _
+  | ifE ip rp c t e => exact prec_IfExpr _
+  | array lb rb es => exact prec_ArrayLiteral _
+  | cast cp rp e path => exact prec_CastExpr _
 
 /-- `_, ok := s.Expr.(*IntLiteral)` -/
 theorem kind_isIntLit (e : PExpr) : ((toNodeP e).kind == "IntLiteral") = isIntLit (erase e) := by
@@ -109,6 +136,35 @@ theorem joinSql_sqlEs : (first : Bytes) → (more : PExprs) →
   | first, .cons e es => by
     simp only [PExprs.toList, List.map_cons, joinSql, erases, sqlEs, joinSql_sqlEs (sqlE (erase e)) es,
       List.append_assoc]
+
+theorem joinSql_sqlEs_all : (es : PExprs) →
+    B "[" ++ joinSql (B ", ") (es.toList.map (fun e => sqlE (erase e))) ++ B "]" = sqlE (.array (erases es))
+  | .nil => by simp [PExprs.toList, joinSql, erases, sqlE]
+  | .cons e es => by
+    simp only [PExprs.toList, List.map_cons, erases, sqlE, joinSql_sqlEs (sqlE (erase e)) es, List.append_assoc]
+
+/-- the texts of the further WHEN clauses -/
+def whenSqls : PWhens → List Bytes
+  | .nil => []
+  | .cons _ c t ws => (B "WHEN " ++ sqlE (erase c) ++ B " THEN " ++ sqlE (erase t)) :: whenSqls ws
+
+/-- the text of the operand (`kw = false`) / of the `CaseElse` node (`kw = true`), if present -/
+def oSql (kw : Bool) : POExpr → Option Bytes
+  | .none => none
+  | .some _ e => some (if kw then B "ELSE " ++ sqlE (erase e) else sqlE (erase e))
+
+theorem joinSql_sqlWs : (first : Bytes) → (ws : PWhens) →
+    joinSql (B " ") (first :: whenSqls ws) = first ++ sqlWs (eraseW ws)
+  | first, .nil => by simp [whenSqls, joinSql, eraseW, sqlWs]
+  | first, .cons wp c t ws => by
+    have h : B " WHEN " = B " " ++ B "WHEN " := by decide
+    simp only [whenSqls, joinSql, eraseW, sqlWs, joinSql_sqlWs _ ws, List.append_assoc, h]
+
+theorem optS_oSql_false (o : POExpr) : optS (oSql false o) = sqlO [] (eraseO o) := by
+  cases o <;> simp [oSql, optS, eraseO, sqlO]
+
+theorem optS_oSql_true (o : POExpr) : optS (oSql true o) = sqlO (B "ELSE ") (eraseO o) := by
+  cases o <;> simp [oSql, optS, eraseO, sqlO]
 
 /-! ## `SQL()` -/
 
@@ -183,15 +239,70 @@ theorem sql_bridge_expr : (e : PExpr) → wfBridge e = true →
     have := sql_IndexExpr _ rb _ _ _ _ _ (sql_bridge_expr e h.1)
       (sql_SubscriptSpecifierKeyword _ w.keywordPos w.rparen w.k.str _ _ (sql_bridge_expr i h.2)) (prec_bridge e)
     simp only [toNodeP, erase, sqlE, parenS_eq, this, Option.map_some, PKw.erase, List.append_assoc]
+  | .caseE cp ep o wp c t ws el, h => by
+    simp only [wfBridge, Bool.and_eq_true] at h
+    have hw0 := sql_CaseWhen asciiPrint wp _ _ _ _ (sql_bridge_expr c h.1.1.1.2) (sql_bridge_expr t h.1.1.2)
+    have := sql_CaseExpr asciiPrint cp ep (toNodeO false o) (toNodeO true el)
+      (nCaseWhen wp (toNodeP c) (toNodeP t) :: whenNodes ws) (oSql false o) (oSql true el)
+      ((B "WHEN " ++ sqlE (erase c) ++ B " THEN " ++ sqlE (erase t)) :: whenSqls ws)
+      (sql_bridge_o false o h.1.1.1.1) (by simp only [List.map_cons, hw0, sql_bridge_whens ws h.1.2])
+      (sql_bridge_o true el h.2)
+    simp only [sliceKids, ← toKidsW_eq] at this
+    simp only [toNodeP, erase, sqlE, this, joinSql_sqlWs, optS_oSql_false, optS_oSql_true, List.append_assoc]
+  | .ifE ip rp c t e, h => by
+    simp only [wfBridge, Bool.and_eq_true] at h
+    exact sql_IfExpr _ ip rp _ _ _ _ _ _ (sql_bridge_expr c h.1.1) (sql_bridge_expr t h.1.2) (sql_bridge_expr e h.2)
+  | .cast cp rp e path, h => by
+    simp only [wfBridge, Bool.and_eq_true] at h
+    have ht : sqlOf ST asciiPrint (nNamedType (identKidsP "Path" 0 path)) =
+        some (joinBytes (B ".") ((path.map (·.name)).map identSQL)) := by
+      rw [identKidsP_eq, ← joinSql_eq_joinBytes]
+      exact sql_NamedType _ _ _ (sql_identsP path h.2.2)
+    have := sql_CastExpr asciiPrint cp rp false _ _ _ _ (sql_bridge_expr e h.1) ht
+    simp only [toNodeP, erase, sqlE, this, Bool.false_eq_true, if_false, List.nil_append, List.append_assoc]
+  | .array lb rb es, h => by
+    simp only [wfBridge] at h
+    have := sql_ArrayLiteral asciiPrint lb rb (es.toList.map toNodeP) (es.toList.map (fun e => sqlE (erase e)))
+      (by simp only [sql_bridge_exprs es h, List.map_map])
+    simp only [← toKidsV_eq] at this
+    simp only [toNodeP, erase, this, joinSql_sqlEs_all]
 theorem sql_bridge_exprs : (es : PExprs) → wfBridges es = true →
     (es.toList.map toNodeP).map (sqlOf ST asciiPrint) = (es.toList.map (fun e => sqlE (erase e))).map some
   | .nil, _ => rfl
   | .cons e es, h => by
     simp only [wfBridges, Bool.and_eq_true] at h
     simp only [PExprs.toList, List.map_cons, sql_bridge_expr e h.1, sql_bridge_exprs es h.2]
+theorem sql_bridge_whens : (ws : PWhens) → wfBridgeW ws = true →
+    (whenNodes ws).map (sqlOf ST asciiPrint) = (whenSqls ws).map some
+  | .nil, _ => rfl
+  | .cons wp c t ws, h => by
+    simp only [wfBridgeW, Bool.and_eq_true] at h
+    simp only [whenNodes, whenSqls, List.map_cons, sql_bridge_whens ws h.2,
+      sql_CaseWhen asciiPrint wp _ _ _ _ (sql_bridge_expr c h.1.1) (sql_bridge_expr t h.1.2)]
+theorem sql_bridge_o (kw : Bool) : (o : POExpr) → wfBridgeO o = true →
+    (toNodeO kw o).map (sqlOf ST asciiPrint) = (oSql kw o).map some
+  | .none, _ => rfl
+  | .some p e, h => by
+    simp only [wfBridgeO] at h
+    cases kw
+    · simp only [toNodeO, oSql, Option.map_some, Bool.false_eq_true, if_false, sql_bridge_expr e h]
+    · simp only [toNodeO, oSql, Option.map_some, if_true, sql_CaseElse asciiPrint p _ _ (sql_bridge_expr e h)]
 end
 
 /-! ## `Pos()` / `End()` -/
+
+/-- `(Pos(), End())` of the further `CaseWhen` nodes -/
+def whenPEs : PWhens → List (Int × Int)
+  | .nil => []
+  | .cons wp _ t ws => ((wp : Int), (endP t : Int)) :: whenPEs ws
+
+theorem goKids_optKid {f : String} {o : Option Node} (h : ∀ n, o = some n → ∃ pe, goPosEnd PT n = some pe) :
+    ∃ ks, goKids PT (optKid f o) = some ks := by
+  cases o with
+  | none => exact ⟨[], rfl⟩
+  | some n =>
+    obtain ⟨pe, hpe⟩ := h n rfl
+    exact ⟨[⟨f, none, pe.1, pe.2⟩], by simp [optKid, goKids, hpe]⟩
 
 theorem pos_identP (i : PIdent) : goPosEnd PT (identP i) = some ((i.namePos : Int), (i.nameEnd : Int)) :=
   pos_Ident _ _ _
@@ -266,6 +377,35 @@ theorem pos_bridge_expr : (e : PExpr) → wfBridge e = true →
     simp only [toNodeP, pos_IndexExpr rb _ _ _ _ _ _ (pos_bridge_expr e h.1)
       (pos_SubscriptSpecifierKeyword w.keywordPos w.rparen w.k.str _ _ _ (pos_bridge_expr i h.2)), posP, endP,
       Int.natCast_add]; rfl
+  | .caseE cp ep o wp c t ws el, h => by
+    simp only [wfBridge, Bool.and_eq_true] at h
+    have hw0 := pos_CaseWhen wp _ _ _ _ _ _ (pos_bridge_expr c h.1.1.1.2) (pos_bridge_expr t h.1.1.2)
+    have hsl := goKids_slice (T := PT) (f := "Whens") (k := 0)
+      (nodes := nCaseWhen wp (toNodeP c) (toNodeP t) :: whenNodes ws)
+      (pes := ((wp : Int), (endP t : Int)) :: whenPEs ws)
+      (by simp only [List.map_cons, hw0, pos_bridge_whens ws h.1.2])
+    simp only [sliceKids, ← toKidsW_eq] at hsl
+    obtain ⟨k1, hk1⟩ := goKids_optKid (f := "Expr") (pos_bridge_o false o h.1.1.1.1)
+    obtain ⟨k3, hk3⟩ := goKids_optKid (f := "Else") (pos_bridge_o true el h.2)
+    have hk := goKids_app _ _ _ _ hk1 (goKids_app _ _ _ _ hsl hk3)
+    simp only [toNodeP, pos_CaseExpr cp ep _ _ hk, posP, endP, Int.natCast_add]; rfl
+  | .ifE ip rp c t e, h => by
+    simp only [wfBridge, Bool.and_eq_true] at h
+    simp only [toNodeP, pos_IfExpr ip rp _ _ _ _ _ _ _ _ _ (pos_bridge_expr c h.1.1) (pos_bridge_expr t h.1.2)
+      (pos_bridge_expr e h.2), posP, endP, Int.natCast_add]; rfl
+  | .cast cp rp e path, h => by
+    simp only [wfBridge, Bool.and_eq_true] at h
+    have ht := pos_NamedType (path.map identP) (path.map (fun i => ((i.namePos : Int), (i.nameEnd : Int))))
+      (pos_identsP path)
+    rw [← identKidsP_eq] at ht
+    simp only [toNodeP, pos_CastExpr cp rp false _ _ _ _ _ _ (pos_bridge_expr e h.1) ht, posP, endP, Int.natCast_add]; rfl
+  | .array lb rb es, h => by
+    simp only [wfBridge] at h
+    have hk := goKids_slice (T := PT) (f := "Values") (k := 0) (nodes := es.toList.map toNodeP)
+      (pes := es.toList.map (fun e => ((posP e : Int), (endP e : Int))))
+      (by simp only [pos_bridge_exprs es h, List.map_map])
+    simp only [← toKidsV_eq] at hk
+    simp only [toNodeP, pos_ArrayLiteral lb rb _ _ hk, posP, endP, Int.natCast_add]; rfl
 theorem pos_bridge_exprs : (es : PExprs) → wfBridges es = true →
     (es.toList.map toNodeP).map (goPosEnd PT) =
       (es.toList.map (fun e => ((posP e : Int), (endP e : Int)))).map some
@@ -273,6 +413,23 @@ theorem pos_bridge_exprs : (es : PExprs) → wfBridges es = true →
   | .cons e es, h => by
     simp only [wfBridges, Bool.and_eq_true] at h
     simp only [PExprs.toList, List.map_cons, pos_bridge_expr e h.1, pos_bridge_exprs es h.2]
+theorem pos_bridge_whens : (ws : PWhens) → wfBridgeW ws = true →
+    (whenNodes ws).map (goPosEnd PT) = (whenPEs ws).map some
+  | .nil, _ => rfl
+  | .cons wp c t ws, h => by
+    simp only [wfBridgeW, Bool.and_eq_true] at h
+    simp only [whenNodes, whenPEs, List.map_cons, pos_bridge_whens ws h.2,
+      pos_CaseWhen wp _ _ _ _ _ _ (pos_bridge_expr c h.1.1) (pos_bridge_expr t h.1.2)]
+theorem pos_bridge_o (kw : Bool) : (o : POExpr) → wfBridgeO o = true →
+    ∀ n, toNodeO kw o = some n → ∃ pe, goPosEnd PT n = some pe
+  | .none, _ => fun _ hn => by cases hn
+  | .some p e, h => fun n hn => by
+    simp only [wfBridgeO] at h
+    cases kw
+    · simp only [toNodeO, Bool.false_eq_true, if_false, Option.some.injEq] at hn
+      subst hn; exact ⟨_, pos_bridge_expr e h⟩
+    · simp only [toNodeO, if_true, Option.some.injEq] at hn
+      subst hn; exact ⟨_, pos_CaseElse p _ _ _ (pos_bridge_expr e h)⟩
 end
 
 end MF.Bridge
